@@ -1,6 +1,7 @@
 package main
 
 import (
+	"math"
 	"errors"
 	"fmt"
 	"io"
@@ -252,9 +253,17 @@ func runRing(ctx *Ctx) {
 				if ctx.Rnd.Chance(1, 8) {
 					a = -a
 				}
+				if ctx.Rnd.Chance(1, 10) {
+					// counts at the edge of the int range ("skip everything"): index arithmetic must not wrap
+					a = []int{math.MaxInt, math.MaxInt - 1, math.MaxInt - capacity, 1 << 62, 1 << 31, math.MinInt, math.MinInt + 1}[ctx.Rnd.Intn(7)]
+				}
 				ops = append(ops, ringOp{"skip", a})
 			case x < wr+50:
-				ops = append(ops, ringOp{"at", ctx.Rnd.Range(-1, capacity+1)})
+				i := ctx.Rnd.Range(-1, capacity+1)
+				if ctx.Rnd.Chance(1, 10) {
+					i = []int{math.MaxInt, math.MaxInt - capacity, math.MinInt, -capacity - 1, 1 << 40}[ctx.Rnd.Intn(5)]
+				}
+				ops = append(ops, ringOp{"at", i})
 			case x < wr+53:
 				ops = append(ops, ringOp{"clear", 0})
 			case x < wr+57:
